@@ -199,6 +199,19 @@ let handle (x : sexp) : (string * string) list =
         let i = atoi i in
         (match !s.dialing (keyof i) with Some _ -> overlap := true | None -> ());
         opt (do_step (ACtxCancel (ni i)))
+      | L [A "presub"; i] ->
+        (* Subscribe with an already cancelled ctx.  Only where it shares a connection or waits behind a
+           pending dial: as a dialler its upgrade request would never reach the upstream *)
+        let i = atoi i in
+        let k = keyof i in
+        let live = (match !s.conns k with
+            | Some c -> (match !s.cns c with Some x -> not x.c_closed | None -> false)
+            | None -> false) in
+        (match !s.dialing k with Some _ -> overlap := true | None -> ());
+        if not live && !s.dialing k = None then ["(presub-would-dial)"]
+        else begin
+          let a = (match do_step (ACtxCancel (ni i)) with Some evs -> strs evs | None -> ["(skip)"]) in
+          a @ opt (do_step (ASub (ni i, k))) end
       | L [A "cancelin"; i] ->
         let i = atoi i in
         (match !s.pc (ni i) with
@@ -297,15 +310,11 @@ let handle (x : sexp) : (string * string) list =
       if not (routing_b ilog) then add "specfail" "routing an upstream frame was not delivered to exactly its live subscription in order";
       if not (shared_b keys ilog) then add "specfail" "shared_iff_same_key a subscribe frame arrived on a connection dialled for another option tuple";
       if idle_mode <> 2 && not (drain_b ilog) then add "specfail" "conns_drain an acknowledged connection without live subscription is still open at quiescence";
-      (* attribution through the faithful model's ghost causes *)
-      let blamed = List.filter_map (fun e -> match e with
-          | ORet (j, Some (ECtx (k, _))) when k <> j -> Some (Printf.sprintf "sub=%d gets ctx error of dialler=%d" (ii j) (ii k))
-          | ORet (j, Some (EClosed CIdle)) | ORet (j, Some (EWrite CIdle)) -> Some (Printf.sprintf "sub=%d closed-by-idle" (ii j))
-          | OConnErr (j, CIdle) -> Some (Printf.sprintf "sub=%d connerr-by-idle" (ii j))
-          | OConnErr (j, CWriteCtx k) when k <> j -> Some (Printf.sprintf "sub=%d connerr-by-writectx-of=%d" (ii j) (ii k))
-          | _ -> None) model_log in
+      (* the model of the repaired code blames nobody (c18_cancel_isolated): a failure of this clause has no
+         recorded cause; the model's own log must satisfy the ghost-tagged form too *)
+      let model_ok = isolated_log_b model_log in
       let cause = if !mism then "cause=unattributed(model-disagrees)"
-        else (match blamed with [] -> "cause=unattributed" | l -> "cause=model:" ^ String.concat ";" l) in
+        else if model_ok then "cause=unattributed" else "cause=unattributed(model-log-not-isolated)" in
       if not (isolated_b keys ilog) then
         add "specfail" ("cancel_isolated a subscriber with a live ctx and a healthy upstream failed; " ^ cause);
       (* differential form, fault-free schedules only: j fails with i present, not without *)
